@@ -18,7 +18,7 @@ LEVEL_TEXT = ("Fault enumeration: for intact archives the reader must report exa
 LEVEL_NOTE = ("Trusted: the Python packer in this file (written from the format description: version entry, properties, 20-byte entry records, data, optional trailer), "
               "ASan/UBSan and max_allocation_size_mb=64, SHA-1 of the scratch directory before/after. Compressed entries are not generated.")
 ASSUMPTIONS = ["entries are stored uncompressed", "the archive file is private to the case"]
-SIZES = {"quick": dict(budget_s=45, batch=100), "thorough": dict(budget_s=600, batch=200)}
+SIZES = {"quick": dict(budget_s=40, batch=100, fuzz_s=20), "thorough": dict(budget_s=480, batch=200, fuzz_s=420)}
 FLOORS = {"nontrivial": 0.6, "string_256_or_longer": 0.1}
 
 
@@ -118,7 +118,137 @@ def build(case):
     return blob, props, entries
 
 
+def ref_parse(blob):
+    """reference parser for the layout pack() writes; None unless the bytes are a well-formed archive of that layout"""
+    if len(blob) < 21 or blob[:21] != b"\0sreV" + b"\0" * 16:
+        return None
+    pos = 21
+    props = []
+    while True:
+        e = blob.find(b"\0", pos)
+        if e < 0:
+            return None
+        k = blob[pos:e]
+        pos = e + 1
+        if not k:
+            break
+        e = blob.find(b"\0", pos)
+        if e < 0:
+            return None
+        props.append((k.decode("latin-1"), blob[pos:e].decode("latin-1")))
+        pos = e + 1
+    heads = []
+    while True:
+        e = blob.find(b"\0", pos)
+        if e < 0 or e + 21 > len(blob):
+            return None
+        name = blob[pos:e]
+        packing, orig, _res, _ts, size = struct.unpack_from("<IIIII", blob, e + 1)
+        pos = e + 21
+        if not name:
+            if (packing, orig, size) != (0, 0, 0):
+                return None
+            break
+        if packing != 0:
+            return None          # compressed entries are outside the reference layout
+        heads.append((name.decode("latin-1"), size))
+    entries = []
+    for name, size in heads:
+        if pos + size > len(blob):
+            return None
+        entries.append((name, blob[pos:pos + size]))
+        pos += size
+    rest = blob[pos:]
+    if rest and not (len(rest) == 21 and rest[:1] == b"\0"):
+        return None              # only an optional checksum trailer may follow
+    if len({n.lower() for n, _d in entries}) != len(entries) or len({k for k, _v in props}) != len(props):
+        return None              # duplicate names: which one is meant is not defined by the layout
+    return props, entries
+
+
+def check_raw(case, env):
+    """arbitrary bytes (libFuzzer artifacts, mutated archives): totality + exactness whenever the reference parser accepts them"""
+    d = os.path.join(env.scratch_dir(), "c17")
+    os.makedirs(d, exist_ok=True)
+    for old in os.listdir(d):
+        os.unlink(os.path.join(d, old))
+    blob = case["raw"].encode("latin-1")
+    path = os.path.join(d, "test.pbo")
+    with open(path, "wb") as fh:
+        fh.write(blob)
+    before = _dir_state(d)
+    ref = ref_parse(blob)
+    labs = {"raw", "raw_wellformed" if ref else "raw_malformed", "nontrivial"}
+    ctx = "raw archive of %d bytes (%s by the reference parser): %r\n" % (len(blob), "well-formed" if ref else "malformed", blob[:120])
+    r = env.runner(timeout=15.0, max_alloc_mb=64)
+    v = None
+    try:
+        listing = r.cmd(dict(op="pbo", path=path, read=True, max_read=1 << 22))
+        if "exception" in listing:
+            v = viol("raw|exception|" + listing.get("exception_type", "?"), ctx + "an exception escaped the reader: %s" % listing["exception"])
+        elif listing.get("stderr") and "runtime error:" in listing["stderr"]:
+            v = viol("raw|ubsan|" + sanitizer_signature(listing["stderr"]), ctx + listing["stderr"][:800])
+        elif listing.get("good"):
+            total = 0
+            for e in listing["files"]:
+                if e.get("too_big") or e["size"] > len(blob):
+                    v = viol("raw|size-from-header", ctx + "entry %r claims %d bytes in a %d byte file" % (e["name"], e.get("too_big") or e["size"], len(blob)))
+                    break
+                total += len(e.get("data") or "")
+            if v is None and total > len(blob):
+                v = viol("raw|more-bytes-than-file", ctx + "the entries yield %d bytes, the file has %d" % (total, len(blob)))
+            if v is None and ref:
+                props, entries = ref
+                got_attrs = [(a[0], a[1]) for a in listing["attrs"]]
+                got = [(e["name"], (e.get("data") or "").encode("latin-1")) for e in listing["files"]]
+                if got_attrs != props:
+                    v = viol("raw|attributes", ctx + "properties reported %s, stored %s" % (got_attrs[:4], props[:4]))
+                elif got != entries:
+                    v = viol("raw|entries", ctx + "entries reported %s, stored %s" % ([(n, len(x)) for n, x in got[:5]], [(n, len(x)) for n, x in entries[:5]]))
+        elif ref:
+            v = viol("raw|wellformed-rejected", ctx + "the reference parser accepts the archive (%d properties, %d entries), the reader rejects it" % (len(ref[0]), len(ref[1])))
+    except RunnerCrash as rc:
+        if rc.kind == "timeout":
+            v = viol("raw|hang", ctx + "the reader did not return within 15 s")
+        else:
+            v = viol("raw|crash|%s" % sanitizer_signature(rc.detail), ctx + "the reader crashed:\n" + rc.detail[-1200:])
+    if v is None and _dir_state(d) != before:
+        v = viol("raw|filesystem-modified", ctx + "loading created or modified files")
+    return Result(nontrivial=True, labels=sorted(labs), violation=v)
+
+
+def extra(env, tier, seed, sizes):
+    """coverage-guided part (E-fuzz): libFuzzer on the reader with the invariants inside the target; every artifact is replayed as a raw case"""
+    from engine import fuzz
+    secs = sizes.get("fuzz_s", 0)
+    if not secs:
+        return None
+    seeds = [pack([("prefix", "x\\a")], [("a.sqf", b"x = 1;"), ("b\\c.txt", b"")], False)[0], pack([], [], True)[0],
+             pack([("prefix", "p"), ("version", "1")], [("n%d" % i, bytes([i]) * (i * 7)) for i in range(6)], True)[0]]
+    res = fuzz.campaign("fuzz_pbo", secs, seed, seeds, os.path.join(env.scratch_dir(), "fuzz_pbo"), max_len=2048, timeout_s=10)
+    out = dict(evaluations=0, nontrivial=[], labels={"libfuzzer_execs": res["execs"], "libfuzzer_artifacts": len(res["artifacts"])}, violations=[], samples=[],
+               info=dict(libfuzzer=dict(target="fuzz_pbo", execs=res["execs"], cov=res["cov"], wall_s=res["wall_s"], artifacts=len(res["artifacts"]))))
+    seen = set()
+    for kind, data in res["artifacts"]:
+        if kind not in ("crash", "timeout", "leak") or data in seen or len(seen) >= 200:
+            continue
+        seen.add(data)
+        case = dict(raw=data.decode("latin-1"))
+        r = check_raw(case, env)
+        out["evaluations"] += 1
+        out["nontrivial"].append(hashlib.sha1(data).hexdigest())
+        for l in r.labels:
+            out["labels"][l] = out["labels"].get(l, 0) + 1
+        if r.violation is not None:
+            out["violations"].append(dict(case=case, sig=r.violation["sig"], msg=r.violation["msg"], labels=r.labels))
+        else:
+            out["labels"]["artifact_not_reproduced_in_runner"] = out["labels"].get("artifact_not_reproduced_in_runner", 0) + 1
+    return out
+
+
 def check(case, env):
+    if "raw" in case:
+        return check_raw(case, env)
     d = os.path.join(env.scratch_dir(), "c17")
     os.makedirs(d, exist_ok=True)
     for old in os.listdir(d):
